@@ -18,6 +18,7 @@ import (
 	"github.com/go-task/task/v3/internal/sort"
 	"github.com/go-task/task/v3/internal/summary"
 	"github.com/go-task/task/v3/internal/templater"
+	"github.com/go-task/task/v3/internal/verifhook"
 	"github.com/go-task/task/v3/taskfile/ast"
 
 	"golang.org/x/sync/errgroup"
@@ -118,6 +119,8 @@ func (e *Executor) splitRegularAndWatchCalls(calls ...*Call) (regularCalls []*Ca
 
 // RunTask runs a task by its name
 func (e *Executor) RunTask(ctx context.Context, call *Call) error {
+	verifhook.At("run.enter", call.Task)
+	defer verifhook.At("run.exit", call.Task)
 	t, err := e.FastCompiledTask(call)
 	if err != nil {
 		return err
@@ -179,6 +182,7 @@ func (e *Executor) RunTask(ctx context.Context, call *Call) error {
 				fingerprint.WithDry(e.Dry),
 				fingerprint.WithLogger(e.Logger),
 			)
+			verifhook.At("fp.checked", t.Task)
 			if err != nil {
 				return err
 			}
@@ -305,6 +309,8 @@ func (e *Executor) runDeferred(t *ast.Task, call *Call, i int, deferredExitCode 
 
 func (e *Executor) runCommand(ctx context.Context, t *ast.Task, call *Call, i int) error {
 	cmd := t.Cmds[i]
+	verifhook.AtI("cmd.before", t.Task, i)
+	defer verifhook.AtI("cmd.after", t.Task, i)
 
 	switch {
 	case cmd.Task != "":
@@ -384,7 +390,9 @@ func (e *Executor) startExecution(ctx context.Context, t *ast.Task, execute func
 		reacquire := e.releaseConcurrencyLimit()
 		defer reacquire()
 
+		verifhook.At("exec.wait", h)
 		<-otherExecutionCtx.Done()
+		verifhook.At("exec.woke", h)
 		return nil
 	}
 
@@ -393,6 +401,7 @@ func (e *Executor) startExecution(ctx context.Context, t *ast.Task, execute func
 
 	e.executionHashes[h] = ctx
 	e.executionHashesMutex.Unlock()
+	verifhook.At("exec.registered", h)
 
 	return execute(ctx)
 }
